@@ -53,21 +53,28 @@ BIN_AST = {"Add": "+", "Sub": "-", "Mult": "*", "Div": "/", "FloorDiv": "//", "M
 
 
 class Batch:
-    """collects Gallina expressions from several correspondences and evaluates them in ONE coq_eval"""
+    """collects Gallina expressions from several correspondences and evaluates them in ONE coq_eval; expressions
+    added together have one type and are evaluated as lists of GROUP elements per Eval"""
+    GROUP = 40
 
     def __init__(self):
         self.exprs, self.res = [], None
 
     def add(self, exprs):
+        chunks = [exprs[i:i + self.GROUP] for i in range(0, len(exprs), self.GROUP)]
         start = len(self.exprs)
-        self.exprs.extend(exprs)
-        return (start, len(self.exprs))
+        self.exprs.extend(oc.coq_list(c) for c in chunks)
+        return (start, len(self.exprs), len(exprs))
 
     def run(self):
-        self.res = vlib.coq_eval(IMPORTS, "", self.exprs, tag="c03", shard=500)
+        self.res = vlib.coq_eval(IMPORTS, "", self.exprs, tag="c03", shard=25)
 
     def get(self, span):
-        return self.res[span[0]:span[1]]
+        out = []
+        for r in self.res[span[0]:span[1]]:
+            out.extend(oc.coq_parse(r))
+        assert len(out) == span[2], (len(out), span)
+        return out
 
 
 # ------------------------------------------------------------------ AST canonicalisation
@@ -119,10 +126,10 @@ def ast_correspondence(chk, hy, max_n, batch):
         for n in range(0, max_n):
             exprs.append("(@compile_aug nat %s 100 (map PLeaf (seq 0 %d)))" % (oc.coq_string(name + "="), n))
             keys.append(("aug", name + "=", n))
-    span = batch.add(exprs)
+    n_op = sum(1 for k in keys if k[0] == "op")
+    span1, span2 = batch.add(exprs[:n_op]), batch.add(exprs[n_op:])
     yield
-    for (kind, name, n), r in zip(keys, batch.get(span)):
-        model = oc.coq_parse(r)
+    for (kind, name, n), model in zip(keys, batch.get(span1) + batch.get(span2)):
         if kind == "op":
             src = "(%s %s)" % (name, " ".join("a%d" % i for i in range(n)))
             st = hy_compile_one(hy, src)
@@ -229,8 +236,7 @@ def doc_correspondence(chk, hy, tables, max_n, batch, docs):
             keys.append((name, n))
     span = batch.add(exprs)
     yield
-    for (name, n), r in zip(keys, batch.get(span)):
-        model = oc.coq_parse(r)
+    for (name, n), model in zip(keys, batch.get(span)):
         py = doc_python(docs[name], n)
         if py is None:
             impl = "None"
@@ -445,7 +451,7 @@ def sym_runs(chk, hy, comp, docs, max_n, per, batch):
     yield
     res = batch.get(span)
     for idx, (name, n, leaves, bad, falsy) in enumerate(cases):
-        m_macro, m_call, m_doc = (oc.coq_parse(res[3 * idx + j]) for j in range(3))
+        m_macro, m_call, m_doc = (res[3 * idx + j] for j in range(3))
         cfg = Cfg(bad, falsy)
         objs = {}
         args = []
@@ -724,8 +730,7 @@ def shadow_model(chk, hy, max_n, batch):
             m = re.fullmatch(r"a(\d+)", s)
             return ("FOperand", int(m.group(1))) if m else ("FSym", ("str", s))
         raise ValueError(repr(x))
-    for (name, n, pos), r in zip(keys, batch.get(span)):
-        model = oc.coq_parse(r)
+    for (name, n, pos), model in zip(keys, batch.get(span)):
         args = " ".join(("#* a%d" % i) if i == pos else "a%d" % i for i in range(n))
         exp = hy.macroexpand_1(hy.read("(%s %s)" % (name, args)))
         impl = ("Some", ("ExpandTo", form_of(exp)))
@@ -818,3 +823,13 @@ def run(chk):
     from hy.reader.mangling import mangle
     chk.obligation("mangle is injective on the comparison operator names (c_ops is re-keyed by mangle)",
                    len({mangle(k) for k in COMPARE}) == len(COMPARE))
+
+
+def replay(path):
+    """re-run the check that produced the replay file (the failing input is regenerated from the same seed)"""
+    import json
+    rec = json.load(open(path))
+    print("replaying", rec.get("kind"), rec.get("key"), json.dumps(rec.get("input"))[:300])
+    chk = vlib.Check("C03", "quick", 0)
+    run(chk)
+    return chk.finish()
